@@ -217,18 +217,21 @@ def build_lumps(v: Variant, rng):
     lumps[L['TEXDATA_STRING_TABLE']] = b''.join(struct.pack('<i', o) for o in stable)
     # texdata: (reflectivity, name index, w, h)
     texdata = [(0.25, 0.5, 0.125, 0, 64, 64), (0.0625, 0.1875, 0.375, 1, 512, 256), (0.5, 0.5, 0.5, 2, 128, 128),
-               (0.75, 0.0, 0.0, 3, 32, 16)]
+               (0.75, 0.0, 0.0, 3, 32, 16),
+               # a "twin": the same material name as entry 0, other reflectivity and size (compilers emit these when a
+               # material is used with different $basetexture sizes); a writer keyed on the name would merge them
+               (0.125, 0.5, 0.75, 0, 128, 256)]
     if vit:
         lumps[L['TEXDATA']] = b''.join(struct.pack('<3f3i', *t) for t in texdata)
     else:
         lumps[L['TEXDATA']] = b''.join(struct.pack('<3f5i', *t, t[4], t[5]) for t in texdata)
     # texinfo: 16 floats, flags, texdata index  (all distinct; every texdata used in first-use order)
     texinfo = []
-    for i, td in enumerate([0, 1, 2, 3, 2]):
+    for i, td in enumerate([0, 1, 2, 3, 2, 4]):
         fl = [0.25 * (i + 1), 0.0, 0.0, 4.0 * i, 0.0, -0.25, 0.0, 8.0, 0.0625, 0.0, 0.0, 0.5, 0.0, 0.0625, 0.0, 1.5 + i]
         if td == 3:   # overlay-style texinfo
             fl = [0.0, 0.0, 0.0, -99999.0, 0.0, 0.0, 0.0, -99999.0, 0.0, 0.0, 0.0, -99999.0, 0.0, 0.0, 0.0, -99999.0]
-        texinfo.append((fl, [0x0, 0x8 | 0x10, 0x400, 0x80, 0x2][i], td))
+        texinfo.append((fl, [0x0, 0x8 | 0x10, 0x400, 0x80, 0x2, 0x1][i], td))
     lumps[L['TEXINFO']] = b''.join(struct.pack('<16fii', *fl, flags, td) for fl, flags, td in texinfo)
 
     # primitives (none in Vitamin)
